@@ -342,7 +342,14 @@ class MovingWindow(BackgroundService):
                 if self._resampler and self._resampler_sender:
                     await self._resampler_sender.send(sample)
                 else:
-                    self._buffer.update(sample)
+                    try:
+                        self._buffer.update(sample)
+                    except IndexError:
+                        # The ring buffer rejects samples that are older than the
+                        # window.  That must not end the window's update task.
+                        _logger.warning(
+                            "Dropping sample that is too old for the window: %s", sample
+                        )
 
         except asyncio.CancelledError:
             _logger.info("MovingWindow task has been cancelled.")
